@@ -1,7 +1,7 @@
 """C20 - graph files are parsed faithfully and malformed files are rejected.
 Monitor: return value / exception of the real graphutils.read_graphs on rendered files; oracle: the generating description
 (and, for the repository's fixture files, an independent mini-parser)."""
-import collections, hashlib, os, tempfile, glob, shutil
+import copy, collections, hashlib, os, tempfile, glob, shutil
 import networkx as nx
 from fpverif import gen, ref, monitors as M
 import flowpaths as fp
@@ -54,14 +54,19 @@ def make_block(rng, idx):
         except Exception:
             pass
     nh = rng.randint(1, 3)
-    headers = [f"graph number = {idx} name = g{rng.randint(0, 999)}"] + [f"extra comment {j}" for j in range(nh - 1)]
+    # header / comment texts, including ones that begin with a capital S, a digit or contain '#' further inside (none of them is a '#S' line:
+    # the renderer always puts white space between '#' and a text starting with 'S')
+    pool = [f"extra comment {idx}", f"Sample {idx} replicate 2", "Strain_K12", "S", f"S{idx} second", "subpath constraints below", f"{idx} 7 3", "unique source is 0 # really",
+            "Source: simulated", "SRR1234 run"]
+    first = rng.choice([f"graph number = {idx} name = g{rng.randint(0, 999)}"] * 3 + [f"Sample {idx} replicate {rng.randint(1, 9)}", f"Strain_K{idx}", f"S{idx}", f"{idx}"])
+    headers = [first] + [rng.choice(pool) for j in range(nh - 1)]
     return {"headers": headers, "cons": cons, "n": len(set(x for e in edges for x in e)), "edges": toks, "zero": False}
 
 
 def render(rng, blocks):
     lines = []
     for b in blocks:
-        hdr = [("#" + rng.choice(["", " ", "  ", "\t"]) + h) for h in b["headers"]]
+        hdr = [("#" + rng.choice(([] if h.startswith("S") else [""]) + [" ", "  ", "\t"]) + h) for h in b["headers"]]
         cl = [("#S" + rng.choice([" ", "  ", "\t"]) + rng.choice([" ", "  "]).join(c)) for c in b["cons"]]
         # constraint lines may be interleaved with the later header lines, the id line stays first
         rest = hdr[1:] + cl
@@ -208,6 +213,25 @@ def run_case(case):
         lines = case["lines"]; blocks = case["blocks"]
     else:
         blocks = [make_block(rng, i) for i in range(rng.randint(1, 6))]
+        if rng.random() < 0.3:
+            # a 'twin' of an earlier block: same header lines, same node and edge counts, one edge rewired (so possibly another width)
+            b0 = rng.choice(blocks)
+            if not b0["zero"] and len(b0["edges"]) >= 2:
+                t = copy.deepcopy(b0); t["cons"] = []
+                ns = sorted({x for u, v, _ in t["edges"] for x in (u, v)}); have = {(u, v) for u, v, _ in t["edges"]}
+                for _ in range(20):
+                    i = rng.randrange(len(t["edges"])); x, y = rng.choice(ns), rng.choice(ns)
+                    rest = [e for j, e in enumerate(t["edges"]) if j != i]
+                    if (x, y) not in have and {a for u, v, _ in rest for a in (u, v)} | {x, y} == set(ns):
+                        H = nx.DiGraph([(u, v) for u, v, _ in rest] + [(x, y)])
+                        try:
+                            okw = bool(ref.sources(H)) and bool(ref.sinks(H)) and ref.walk_cover_width(H) is not None
+                        except ref.RefTimeout:
+                            okw = False
+                        if not okw:
+                            continue        # keep the twin inside the format's domain: a source, a sink, every edge on a source-to-sink walk
+                        t["edges"] = rest[:i] + [(x, y, t["edges"][i][2])] + rest[i:]
+                        blocks.insert(rng.randrange(len(blocks) + 1), t); break
         lines = render(rng, blocks)
     d, p = write_tmp(lines)
     try:
